@@ -22,6 +22,9 @@ LEVEL = "exploration"
 RULE = ("strata = fusion x configuration class (structure switches, dtype, near-miss switches), every stratum visited at every seed; "
         "the seed picks sizes (B,S,H,D,heads...), epsilon/scale constants and input data inside a stratum. Each instance: single "
         "fusion pipeline after ShapeInferencePass+optimize, and optimize_for_ort; anchors = repo cut-out models at their fixed sizes. "
+        "Near-miss classes include look-alikes that must NOT be fused or must be fused faithfully: epsilon added after the square root / mean absolute "
+        "value in an RMS-norm-shaped graph (inputs with a small-magnitude row), BiasGelu biases that are a vector along another axis than the last "
+        "([D,1], [1,D,1] on square inputs). "
         "non-trivial = instance on which the target fusion fired (single path or optimize_for_ort) and both models ran on ORT; "
         "distinct = fusion + class + path")
 ASSUMPTIONS = [
